@@ -240,6 +240,9 @@ def project(trace, get, sid, cmdmap=None):
         return {"q": e["q"], "count": e["count"], "final": e["final"], "sort": e["sort"], "rev": e["rev"]}
     saw = []
     last_cfg = 0
+    issued = []             # (fields, cfg) of announced requests, oldest first
+    scanning_cfg = None     # configuration of the request the matcher is serving right now
+    overlap_cfg = None      # configuration that was being scanned when the caches were last cleared (it may have refilled them)
     for e in trace:
         k = e["ev"]
         if k == "match.slot":
@@ -247,6 +250,12 @@ def project(trace, get, sid, cmdmap=None):
         elif k == "match.pick":
             evs.append(dict(req(e), ev="pick", saw=saw, seq=e["seq"]))
             saw = []
+            f = req(e)
+            for j in range(len(issued) - 1, -1, -1):
+                if issued[j][0] == f:
+                    scanning_cfg = issued[j][1]
+                    issued = issued[j + 1:]
+                    break
         elif k == "coord.restart":
             if e["command"] not in cmdmap:
                 raise Infra("restart with an unknown command %r" % e["command"])
@@ -257,11 +266,13 @@ def project(trace, get, sid, cmdmap=None):
             else:
                 denied, prev_denied = [], None
             wanted = []
+            overlap_cfg = None
         elif k == "coord.read":
             if e.get("fin") and pending_sync_clear:
                 denied, prev_denied = [], None
                 pending_sync_clear = False
         elif k == "coord.bump":
+            overlap_cfg = scanning_cfg
             if e.get("compatible", True) and e.get("deny"):
                 prev_denied = list(denied)
                 denied = denied + [i for i in e["deny"] if i not in denied]
@@ -270,16 +281,20 @@ def project(trace, get, sid, cmdmap=None):
         elif k == "match.reset":
             inp = major_input.get(e["rev"][0], -1)
             c = cfg_index((inp, tuple(denied), nth))
-            pc = cfg_index((inp, tuple(prev_denied), nth)) if prev_denied is not None else -1
+            pc = overlap_cfg if (overlap_cfg is not None and overlap_cfg != c and cfgs[overlap_cfg][0] == inp) else -1
             last_cfg = c
+            issued.append((req(e), c))
             evs.append(dict(req(e), ev="reset", cancel=e["cancel"], cfg=c, pcfg=pc, seq=e["seq"]))
             keys.add((e["q"], e["count"], e["sort"], c))
             if pc >= 0:
                 keys.add((e["q"], e["count"], e["sort"], pc))
         elif k in ("match.cachehit", "match.cancelled"):
             evs.append(dict(req(e), ev=k.split(".")[1], seq=e["seq"]))
+            if k == "match.cancelled":
+                scanning_cfg = None
         elif k == "match.publish":
             evs.append(dict(req(e), ev="publish", res=ev_res(e), seq=e["seq"]))
+            scanning_cfg = None
         elif k == "term.list":
             evs.append({"ev": "list", "res": ev_res(e), "n": e["n"], "seq": e["seq"]})
         elif k == "term.act" and e["act"] in ("exclude", "exclude-multi"):
@@ -302,7 +317,7 @@ def project(trace, get, sid, cmdmap=None):
     return evs, keys, cfgs
 
 
-def oracle(fzf, lines, q, n, sort, extra_args=(), excluded=(), nth=""):
+def oracle(fzf, lines, q, n, sort, extra_args=(), excluded=(), nth="", raw=False):
     """What a fresh `fzf --filter q` prints for the first n input lines, as item indices (minus excluded items)."""
     args = [fzf, "--filter", q] + list(extra_args)
     if nth:
@@ -316,6 +331,8 @@ def oracle(fzf, lines, q, n, sort, extra_args=(), excluded=(), nth=""):
     if excluded:
         ex = set(excluded)
         ids = [i for i in ids if i not in ex]
+    if raw:
+        return ids
     return fnv_res(ids)
 
 
